@@ -16,6 +16,7 @@ UNIVERSES = {
     "emptyq5": ("MC_DocGen.tla", "DocGen_emptyq5.cfg", None, None),
     "quotes6": ("MC_DocGen.tla", "DocGen_quotes6.cfg", None, None),
     "html4": ("MC_DocGen.tla", "DocGen_html4.cfg", None, None),
+    "html6": ("MC_DocGen.tla", "DocGen_html6.cfg", None, None),
     "items5q": ("MC_DocGen.tla", "DocGen_items5q.cfg", None, None),
     "heads4": ("MC_DocGen.tla", "DocGen_heads4.cfg", None, None),
     "heads5": ("MC_DocGen.tla", "DocGen_heads5.cfg", None, None),
@@ -27,13 +28,13 @@ UNIVERSES = {
 }
 
 PLAN = {
-    ("C01", "quick"): ["full3", "struct5", "heads4", "inline", "lists", "items5", "empty5", "emptyq5", "quotes6", "html4"],
-    ("C02", "quick"): ["full3", "struct5", "heads4", "inline", "lists", "items5", "empty5", "emptyq5", "quotes6", "html4"],
-    ("C07", "quick"): ["full3", "struct5", "heads5", "lists", "inline1", "items5", "empty5", "emptyq5", "quotes6", "html4"],
+    ("C01", "quick"): ["full3", "struct5", "heads4", "inline", "lists", "items5", "empty5", "emptyq5", "quotes6", "html4", "html6"],
+    ("C02", "quick"): ["full3", "struct5", "heads4", "inline", "lists", "items5", "empty5", "emptyq5", "quotes6", "html4", "html6"],
+    ("C07", "quick"): ["full3", "struct5", "heads5", "lists", "inline1", "items5", "empty5", "emptyq5", "quotes6", "html4", "html6"],
     ("C03", "quick"): ["full3", "struct4", "heads4", "inline1", "lists", "empty5", "emptyq5"],
-    ("C01", "thorough"): ["full4", "struct5", "heads5", "inline", "lists", "deep", "items5", "empty5", "emptyq5", "quotes6", "html4", "items5q"],
-    ("C02", "thorough"): ["full4", "struct5", "heads5", "inline", "lists", "deep", "items5", "empty5", "emptyq5", "quotes6", "html4", "items5q"],
-    ("C07", "thorough"): ["full4", "struct5", "heads6", "inline", "lists", "deep", "items5", "empty5", "emptyq5", "quotes6", "html4", "items5q"],
+    ("C01", "thorough"): ["full4", "struct5", "heads5", "inline", "lists", "deep", "items5", "empty5", "emptyq5", "quotes6", "html4", "html6", "items5q"],
+    ("C02", "thorough"): ["full4", "struct5", "heads5", "inline", "lists", "deep", "items5", "empty5", "emptyq5", "quotes6", "html4", "html6", "items5q"],
+    ("C07", "thorough"): ["full4", "struct5", "heads6", "inline", "lists", "deep", "items5", "empty5", "emptyq5", "quotes6", "html4", "html6", "items5q"],
     ("C03", "thorough"): ["full4", "struct5", "heads5", "inline", "lists", "deep", "empty5", "emptyq5", "items5"],
 }
 
